@@ -365,11 +365,13 @@ fn cmp_view_pre(cx: &mut Ctx, pre: &str, path: &str, view: &VNode, d: &AutoCommi
         if class == "map-value-or-structure" || class == "list-value" {
             let dpath = diff.split(':').next().unwrap_or("");
             let segs: Vec<&str> = dpath.split('/').collect();
-            let key = segs.iter().rposition(|s| *s == "map" || *s == "list").and_then(|i| segs.get(i + 1)).copied().unwrap_or("");
+            // every key / index on the path of the difference (the difference may lie inside the value
+            // of the conflicted key: the view still holds the old winner there)
+            let keys: Vec<&str> = segs.iter().enumerate().filter(|(_, s)| **s == "map" || **s == "list").filter_map(|(i, _)| segs.get(i + 1).copied()).collect();
             let hit = patches.iter().any(|p| match &p.action {
                 automerge::PatchAction::Conflict { prop } => match prop {
-                    automerge::Prop::Map(k) => k == key,
-                    automerge::Prop::Seq(i) => i.to_string() == key,
+                    automerge::Prop::Map(k) => keys.iter().any(|x| x == k),
+                    automerge::Prop::Seq(i) => keys.iter().any(|x| *x == i.to_string()),
                 },
                 _ => false,
             });
